@@ -179,12 +179,16 @@ PROPS = {
         "not_covered": ["ObjectDataSource::len position restore", "file sources (std::fs)"],
     },
     "C05": {
-        "level": "other", "verus": [], "kani": KANI_WIRE, "structural": ["s_fs_sinks_flow_from_confinement"], "fallback_witness": "confine",
-        "technique": "structural data-flow obligation on the fs sinks + Kani bounded harness on the confinement function (url crate over-approximated)",
-        "claim": "every std::fs sink in objectwriterfs.rs takes a path produced by the lexical confinement function; that function, for every path string up to the stated bound, "
-                 "returns only paths below the destination directory",
-        "explanation": "bounded (Kani, stated string length) and structural (call-site scan) obligations only: url::Url::parse and std::path are outside both verifiers' unbounded reach",
-        "not_covered": ["symlinks inside the destination directory", "url::Url::parse itself (over-approximated: its path() may be any string)"],
+        "level": "proof", "verus": U("confine"), "kani": [], "structural": ["s_fs_sinks_flow_from_confinement"], "fallback_witness": "confine",
+        "technique": "Verus contracts on the real confined_destination / ObjectWriterFS::{open,error,interrupted,complete} (for every string, over an uninterpreted "
+                     "view of std's component split) + structural data-flow obligation on every std::fs sink of the file + native grammar search (thorough tier)",
+        "claim": "lexical confinement on unix: confined_destination returns only dest followed by Normal components (at least one), None for any ParentDir / RootDir / Prefix "
+                 "component or an empty name; every create_dir_all / File::create / remove_file in objectwriterfs.rs is called on a path at or strictly below the destination "
+                 "directory; a location that cannot be mapped inside it makes open() fail",
+        "explanation": "proof relative to the std::path facts listed as TRUSTED in units/confine/unit.vrs (what a Normal component is, what PathBuf::push does with one); "
+                       "url::Url::parse / Url::path are uninterpreted (path() may be any string)",
+        "not_covered": ["symlinks inside the destination directory", "url::Url::parse itself (over-approximated: its path() may be any string)",
+                        "Windows: a Normal component such as 'C:foo' carries a prefix when pushed (unit header: cfg(unix) only)", "ObjectWriterFS::write (names no path)"],
     },
 }
 
